@@ -455,3 +455,9 @@ def locs(rep, mod):
         rep.ob('C17.locs', q, ok)
         if not ok:
             rep.violate('C17.locs', mod, g, r[0] if r else q, f'{q} must return self._locs(prefix, {arg})', node=g)
+
+
+def thorough(rep, repo):
+    """Thorough tier: the quick rules plus checker self-validation on the C17 slice of the mutation corpus."""
+    from kvstatic import thorough as thorough_mod
+    thorough_mod.selftest_slice(rep, repo, 'C17')
